@@ -791,10 +791,14 @@ func c12Build(yaml string, nOut int) (*c12Pipeline, error) {
 }
 
 func c12SetKnobs(pc *c12Pipe) func() {
-	a, b, c := defs.InputLogMinRecordBytesToPool, defs.InputLogMaxMessageBytes, defs.InputLogMaxRecordBytes
+	a, b, c, d := defs.InputLogMinRecordBytesToPool, defs.InputLogMaxMessageBytes, defs.InputLogMaxRecordBytes, defs.IntermediateFlushInterval
 	defs.InputLogMinRecordBytesToPool, defs.InputLogMaxMessageBytes, defs.InputLogMaxRecordBytes = pc.MinPool, pc.MaxMsg, pc.MaxRec
+	// The worker's timer cuts a chunk when a second has passed since the last one: on a loaded machine a case can take
+	// longer than that, and the chunk-content check would see a chunk boundary in the middle of the stream. Chunks are
+	// cut by size and at the end only.
+	defs.IntermediateFlushInterval = 1000 * time.Hour
 	return func() {
-		defs.InputLogMinRecordBytesToPool, defs.InputLogMaxMessageBytes, defs.InputLogMaxRecordBytes = a, b, c
+		defs.InputLogMinRecordBytesToPool, defs.InputLogMaxMessageBytes, defs.InputLogMaxRecordBytes, defs.IntermediateFlushInterval = a, b, c, d
 	}
 }
 
@@ -1059,7 +1063,22 @@ func c12RunPipeline(c *Case) (out string, fails []Fail) {
 				want = append(want, lo.outs[k].stream...)
 			}
 		}
+		inOrder := true
 		if len(want) > 0 && !bytes.Contains(long.chunks[k], want) {
+			// a chunk cut by size puts chunk framing between two streams: every stream must still be there, in order
+			pos := 0
+			for _, lo := range long.recs {
+				if k < len(lo.outs) {
+					j := bytes.Index(long.chunks[k][pos:], lo.outs[k].stream)
+					if j < 0 {
+						inOrder = false
+						break
+					}
+					pos += j + len(lo.outs[k].stream)
+				}
+			}
+		}
+		if !inOrder {
 			fails = append(fails, Fail{"c12:chunk-content", fmt.Sprintf("the chunks of output %d do not contain the serialized records as they were produced: %s", k, ctx)})
 		}
 	}
